@@ -549,6 +549,75 @@ fn compact_case(nidx: usize, per: usize, prefix: bool) -> (usize, u8) {
 }
 
 // ---------------------------------------------------------------------------------------------
+// the prefix range scan on its own
+// ---------------------------------------------------------------------------------------------
+/// `find_prefixes` over ANY fact map (<= n entries, any slot layout) and ANY prefix: exactly the
+/// entries under the prefix (tombstones included), ascending. This is where "range from the prefix,
+/// take while it still matches" has to be right for keys that are prefixes of one another.
+fn find_prefixes_case(n: usize) -> (usize, u8) {
+    let mut lvl: Level = [None; NC];
+    let mut slots: [Option<(Keys, Option<Bytes>)>; CAP] = [const { None }; CAP];
+    let mut j = 0;
+    while j < n {
+        if kani::any() {
+            let c = any_code();
+            kani::assume(lvl[c as usize].is_none());
+            let v: u8 = kani::any();
+            let val = if kani::any() { Some(v) } else { None };
+            slots[j] = Some((mk_key(c), val.map(bx)));
+            lvl[c as usize] = Some(val);
+        }
+        j += 1;
+    }
+    let map: FactMap = Inner::from_slots(slots);
+    let pc: u8 = kani::any();
+    kani::assume(pc <= ncode());
+    let pk = mk_prefix(pc);
+    let mut n_want = 0;
+    let mut c = 0;
+    while c < NCODE {
+        if lvl[c as usize].is_some() && has_prefix(c, pc) {
+            n_want += 1;
+        }
+        c += 1;
+    }
+    let mut got = 0;
+    {
+        let mut it = find_prefixes(&map, &pk);
+        let mut last: Option<u8> = None;
+        let mut i = 0;
+        while i < n {
+            if let Some((k, v)) = it.next() {
+                let c = match code_of(k) {
+                    Some(c) => c,
+                    None => {
+                        assert!(false);
+                        return (0, 0);
+                    }
+                };
+                assert!(has_prefix(c, pc));
+                match (lvl[c as usize], v) {
+                    (Some(None), None) => {}
+                    (Some(Some(x)), Some(b)) => assert!(b.len() == 1 && b[0] == x),
+                    _ => assert!(false),
+                }
+                if let Some(l) = last {
+                    assert!(l < c);
+                }
+                last = Some(c);
+                got += 1;
+            }
+            i += 1;
+        }
+        assert!(it.next().is_none());
+    }
+    assert!(got == n_want);
+    core::mem::forget(map);
+    core::mem::forget(pk);
+    (got, pc)
+}
+
+// ---------------------------------------------------------------------------------------------
 // proof harnesses (sizes: see checks/C12.json)
 // ---------------------------------------------------------------------------------------------
 macro_rules! harness {
@@ -593,3 +662,9 @@ harness!(c12_write_step_mixed, true, update_step(1, None, 1, false, false));
 harness!(c12_compact_exact, false, compact_case(2, 1, false));
 harness!(c12_compact_deep, false, compact_case(3, 1, false));
 harness!(c12_compact_prefix, false, compact_case(2, 1, true), 2, "prefix query on the compacted index, two or more results");
+// prefix scan on its own, minimal full-chain variants
+harness!(c12_find_prefixes_small, false, find_prefixes_case(3), 2, "two or more entries under the prefix");
+harness!(c12_find_prefixes_mixed, true, find_prefixes_case(3), 2, "compound keys: two or more entries under the prefix");
+harness!(c12_index_chain_prefix_min, false, index_chain(2, 1, true), 1, "prefix query over two indexes with a result");
+harness!(c12_perspective_chain_exact_min, false, perspective_chain(1, None, 1, 1, false));
+harness!(c12_perspective_chain_prefix_min, false, perspective_chain(1, None, 1, 1, true), 1, "prefix query over perspective and index with a result");
